@@ -18,16 +18,16 @@ Node sets print sorted, the empty set as `empty` (a bare `-` would read as "unco
 `rebuild -` answers `order-sensitive` when some column's rebuilt zone map depends on the
 iteration order (the implementation's order is random, so such a line cannot be compared).
 
-Deviation signatures that can still occur (model ≠ spec) with the code at cc52572 — all at the
-level of the store API, none reachable from query text:
-`zm-find-float-bits` (index keys are bit patterns: ±0.0, NaN), `zm-find-nonlive-node`,
-`zm-find-missed-live-node` (properties written to ids that are not live nodes),
-`zm-findrange-bool` (`find_nodes_in_range` orders booleans, the filter does not; the planner
-re-filters), `zm-plan-index-missed-live-node` (index path after a write to a not-yet-existing id).
-The `zm-prune-*`, `zm-prune-range-*`, `zm-plan-pruned-*`, `zm-plan-range-*`, other
-`zm-plan-index-*` and `zm-findrange-{int-float,nan}` signatures of the earlier code are ruled out
-by `c10_zone_map_sound_filter`, `c10_zone_map_range_sound`, `c10_planner_paths_agree`; the code
-that computes them is kept so that a regression is named.
+Deviation signatures that can still occur (model ≠ spec) with the code at 9bbd0dc — both at the
+level of the store API, neither reachable from query text:
+`zm-find-float-bits` (index keys are bit patterns: ±0.0, NaN), `zm-findrange-bool`
+(`find_nodes_in_range` orders booleans, the filter does not; the planner re-filters).
+Unreachable fallbacks, kept so that a regression is named: `zm-find-nonlive-node`,
+`zm-find-missed-live-node`, `zm-plan-index-missed-live-node` (ruled out by `iinv_run` and
+`c10_planner_paths_agree` now that a write to an id that is not a live node is a no-op), and
+the `zm-prune-*`, `zm-prune-range-*`, `zm-plan-pruned-*`, `zm-plan-range-*`, other
+`zm-plan-index-*`, `zm-findrange-{int-float,nan}` signatures of earlier code
+(`c10_zone_map_sound_filter`, `c10_zone_map_range_sound`).
 -/
 namespace Grafeo.DriverZm
 open Grafeo.ZoneMap Grafeo.F64 Grafeo.Proto
